@@ -11,6 +11,7 @@ Tie: harness/ph_speciate.cpp dumps the engine's speciation state at every punch 
  converged verdict; k_calc is also called directly on random vectors. The engine's reading of every database is compared
  with the independent parser's (species, reactions, log K options, named expressions, phases)."""
 import concurrent.futures
+import json
 import math
 import struct
 import time
@@ -42,8 +43,6 @@ STALE_KEY = "stale-molalities-after-revise-guesses"
 STALE_REPLAY = "SOLUTION 1\n temp 5\n" + gens.TAIL
 ISO_KEY = "isotope-initial-solution-total-is-major-isotope"
 ISO_REPLAY = "SOLUTION 1\n D 0\n" + gens.TAIL
-CONST_KEY = "add-constant-ignored"
-LKP_KEY = "lk-phase-double-counts-add-logk"
 QUICK_DBS = ["phreeqc.dat", "wateq4f.dat", "minteq.v4.dat", "minteq.dat"]
 PITZER_SIT = {"pitzer.dat", "sit.dat", "frezchem.dat", "ColdChem.dat", "Concrete_PZ.dat"}
 TOL_LOG = 1e-9
@@ -317,7 +316,6 @@ def judge(d, mc, stats, mb={}, phase_adds=frozenset(), e_species=None):
         stats["stale_states"] += 1
     found = []
     iso_found = []
-    lkp_found = []
     if mc.get("bad"):
         tie.append(("driver", "bad-line", mc["bad"][:2]))
     for m in d["m"]:
@@ -530,11 +528,7 @@ def judge(d, mc, stats, mb={}, phase_adds=frozenset(), e_species=None):
                 orc.append(("SI", n, f"SI engine {si!r}, from database reaction and reported activities {si_m!r}"))
             rkp = d["rkp"].get(n)
             if rkp is not None and abs(rkp - lk_m) > TOL_LOG:
-                if abs(rkp - lk_twice) <= TOL_LOG and n in phase_adds:
-                    lkp_found.append(("lk-phase", n, f"LK_PHASE {rkp!r} counts the -add_logk expressions of the phase twice; log K(T) of "
-                                                     f"the database text (and of SI) is {lk_m!r}"))
-                else:
-                    orc.append(("lk-phase", n, f"LK_PHASE {rkp!r}, database text {lk_m!r}"))
+                orc.append(("lk-phase", n, f"LK_PHASE {rkp!r}, database text {lk_m!r}"))
         stats["si"] += 1
     # (f) gate
     conv_code = d.get("verdict") == 2
@@ -552,9 +546,6 @@ def judge(d, mc, stats, mb={}, phase_adds=frozenset(), e_species=None):
     if iso_found:
         stats["isotope_initial_totals"] += 1
         d["iso_finding"] = iso_found
-    if lkp_found:
-        stats["lk_phase_double_count"] += 1
-        d["lkp_finding"] = lkp_found
     return orc, tie
 
 
@@ -592,7 +583,7 @@ def new_stats():
                            "above_1atm", "rewritten_valence_masters", "rewritten_relative_to_switched_basis",
                            "states_with_redox_couple", "stale_states", "stale_states_excused", "couples", "isotope_initial_totals",
                            "oracle_failures", "valence_totals", "valence_totals_skipped_mole_balance", "lk_named",
-                           "add_constant_ignored_states", "lk_phase_double_count")} | {"res_max": 0.0, "seen": set(), "altpe_names": set()}
+                           "corpus_cases")} | {"res_max": 0.0, "seen": set(), "altpe_names": set()}
 
 
 def resolve_named(db):
@@ -766,10 +757,8 @@ def check_runs(ctx, exe, dbname, db, dblines, texts, stats):
         return [("crash", len(runs), hrc, herr)], runs
     mlines = list(dblines)
     mb = {n: set(sp.elements) for n, sp in db.species.items() if sp.mole_balance}
-    has_const = any(nm == "XconstantX" for o in list(db.species.values()) + list(db.phases.values()) for nm, _ in o.add_logk)
     phase_adds = frozenset(n for n, ph in db.phases.items() if ph.add_logk)
     e_species = frozenset(n for n, sp in db.species.items() if any(t == "e-" for t, _ in sp.rxn))
-    redo = []
     index = []
     for i, run in enumerate(runs):
         stats["runs"] += 1
@@ -800,30 +789,10 @@ def check_runs(ctx, exe, dbname, db, dblines, texts, stats):
             continue
         orc, tie = judge(d, mc, stats, mb, phase_adds, e_species)
         extra = []
-        if d.get("lkp_finding"):
-            extra.append((LKP_KEY, "LK_PHASE (calc_logk_p) adds the -add_logk expressions of a phase a second time", d["lkp_finding"]))
         if d.get("iso_finding"):
             extra.append((ISO_KEY, "ISOTOPES database: add_isotopes() replaces total H / total O by the major-isotope moles before "
                           "the initial solution is punched", d["iso_finding"]))
-        if (orc or tie) and has_const:
-            redo.append((i, d, cid, orc, tie, extra))
-            continue
         if orc or tie or d.get("finding") or extra:
-            findings.append((i, d["idx"], orc, tie, d.get("finding") or [], extra))
-    if redo:
-        # the database uses -add_constant: is the engine exactly what the text WITHOUT those lines prescribes?
-        lines_b = dbparse.to_lines(db, "no-constants", drop_constants=True)
-        for i, d, cid, orc, tie, extra in redo:
-            lines_b += case_lines(d, cid)
-        cases_b = parse_model(pmodel(ctx, "\n".join(lines_b) + "\n"))
-        for i, d, cid, orc, tie, extra in redo:
-            mcb = cases_b.get(cid)
-            ob, tb = judge(d, mcb, new_stats(), mb, phase_adds, e_species) if mcb and "gate" in mcb else (orc, tie)
-            if not ob and not tb:
-                stats["add_constant_ignored_states"] += 1
-                extra.append((CONST_KEY, "-add_constant is ignored: the engine's log K are those of the database text without the "
-                              "-add_constant lines", orc))
-                orc, tie = [], []
             findings.append((i, d["idx"], orc, tie, d.get("finding") or [], extra))
     return findings, runs
 
@@ -1002,6 +971,24 @@ def _run(ctx, ok, exe):
     # 3. speciation runs
     tot_or = tot_tie = 0
     per_db = {}
+    # corpus: minimised past departures (known findings and repaired defects), always replayed first
+    for cf in sorted((vlib.ROOT / "corpus" / "C01").glob("*.json")):
+        data = json.loads(cf.read_text())
+        dbname = data["db"]
+        if data.get("db_text"):
+            (vlib.BUILD / "c01_synth").mkdir(exist_ok=True)
+            dbname = str(vlib.BUILD / "c01_synth" / ("corpus_" + cf.stem + ".dat"))
+            Path(dbname).write_text(data["db_text"], encoding="latin-1")
+        cdb = dbparse.parse(dbfile(dbname))
+        clines = dbparse.to_lines(cdb, cf.stem)
+        cst = new_stats()
+        findings, _ = check_runs(ctx, exe, dbname, cdb, clines, [data["input"]], cst)
+        a, b = handle_findings(ctx, exe, dbname, cdb, clines, [(0, [data["input"]], findings)], db_text=data.get("db_text"))
+        tot_or += a
+        tot_tie += b
+        stats["corpus_cases"] += 1
+        stats["dumps"] += cst["dumps"]
+        stats["res"] += cst["res"]
     for n in dbs:
         t0 = time.time()
         before = dict(stats)
@@ -1039,7 +1026,8 @@ def _run(ctx, ok, exe):
         if sdb.problems or diffs:
             ctx.violation(f"generated database {path.name}: the engine's reading differs from the text: {(sdb.problems + diffs)[0]}",
                           {"kind": "dbtable-synth", "db_text": text, "diffs": (sdb.problems + diffs)[:10]}, found_input=False)
-            continue
+            if sdb.problems or any(x.startswith("engine could not load") for x in diffs):
+                continue
         before = dict(stats)
         stats["seen"] = set()
         focus = smeta["species"]
